@@ -20,6 +20,8 @@ def main(argv):
         # kind <samekind|firstuse> <kind> [index-for-seed]
         jobs = [(10 ** 6 + int(argv[3]) if len(argv) > 3 else 10 ** 6,
                  (argv[1], argv[2], argv[1] == "firstuse"))]
+    elif argv[0] == "soak":
+        jobs = [(3 * 10 ** 6 + k, ("soak", argv[1], False)) for k in range(int(argv[2]))]
     elif argv[0] == "scn":
         # scn <scenario> <n>
         jobs = [(2 * 10 ** 6 + k, (argv[1], None, k % 2 == 1)) for k in range(int(argv[2]))]
